@@ -51,7 +51,55 @@ bool reference_selftest() {
     return ref_hex(std::string("\x00\xff\xab", 3), false) == "00ffab";
 }
 
+//! *_long targets: 13..5000 (rarely 65535..66000) bytes, expanded from a seed
+std::string gen_data_long(pbt::Source& src) {
+    size_t n = gen_long_len(src, 5000, HUGE_OK);
+    int mode = (int)src.range(0, 3);
+    Rng rng(src.bits(4));
+    static const unsigned char SPECIAL[] = {0x00, 0xFF, 0x80, 0x7F, 0xFB, 0xEF, 0xBE, 'A', 'a', '/', '+', '=', '\n', 0x3E, 0x3F};
+    std::string s;
+    s.reserve(n);
+    for (size_t i = 0; i < n; ++i) {
+        unsigned char c = mode == 0   ? (unsigned char)rng.next()
+                          : mode == 1 ? SPECIAL[rng.below(sizeof SPECIAL)]
+                          : mode == 2 ? (unsigned char)('a' + rng.below(4))
+                                      : (unsigned char)(i * 7 + i / 256); // all byte values in a fixed order
+        s += (char)c;
+    }
+    label_len(n);
+    return s;
+}
+
+//! *_long targets: a line-break width (multiple of four) chosen relative to the length of the encoding: widths that
+//! divide it exactly, equal it, exceed it by little or by far (up to the largest multiple of four in size_t)
+size_t gen_line_break_long(pbt::Source& src, size_t datalen) {
+    size_t enc = (datalen + 2) / 3 * 4;
+    switch (src.range(0, 11)) {
+    case 0: return 0;
+    case 1: return 4 * (size_t)src.range(1, 30);
+    case 2: return 76;
+    case 3: return 64;
+    case 4: return enc ? enc : 4;                           // exactly one full line
+    case 5: return enc + 4;                                 // just larger than the output
+    case 6: return enc > 4 ? enc - 4 : 4;                   // one 4-letter group on the second line
+    case 7: {                                               // the output is an exact multiple of the width
+        size_t groups = enc / 4, d = 2 + (size_t)src.range(0, 30);
+        while (d > 1 && groups % d != 0) --d;
+        return groups >= d && d > 1 ? groups / d * 4 : 4;
+    }
+    case 8: return 4 * (size_t)src.range(1, 2000);
+    case 9: return (size_t)4 << src.range(0, 20);           // 4 .. 4 Mi
+    case 10: {
+        static const uint64_t BIG[] = {0xFFFCull, 0x10000ull, 0x7FFFFFFCull, 0x80000000ull, 0xFFFFFFFCull, 0x100000000ull, 0x100000004ull,
+                                       0x7FFFFFFFFFFFFFFCull, 0x8000000000000000ull, 0xFFFFFFFFFFFFFFFCull};
+        return (size_t)BIG[src.range(0, 9)];
+    }
+    default: return (enc / 8) * 4 ? (enc / 8) * 4 : 4;      // about half of the output
+    }
+}
+
 std::string gen_data(pbt::Source& src) {
+    if (long_mode()) return gen_data_long(src);
     size_t maxlen = src.chance(16) ? 300 : 40;
     size_t n = (size_t)src.range(0, (int64_t)maxlen);
     int mode = (int)src.range(0, 2);
@@ -81,6 +129,7 @@ void c19_codec(pbt::Source& src) {
     default: lb = 4 * (size_t)src.range(1, 30); break;
     }
     std::string x = gen_data(src);
+    if (long_mode()) lb = gen_line_break_long(src, x.size());
     Buf xb(x);
 
     if (op == 0) {
@@ -98,6 +147,12 @@ void c19_codec(pbt::Source& src) {
         if (lb == 0) pbt::label("b64:no-line-break");
         else if (lines.size() > 1) pbt::label(lines.back().empty() ? "b64:multi-line,trailing-newline" : "b64:multi-line");
         else pbt::label("b64:single-line");
+        if (long_mode()) {
+            if (lb > stripped.size()) pbt::label("b64:line_break>output");
+            if (lb >= (1ull << 31)) pbt::label("b64:line_break>=2^31");
+            if (lb && !stripped.empty() && stripped.size() % lb == 0) pbt::label("b64:output-multiple-of-line_break");
+            if (lines.size() > 256) pbt::label("b64:>256-lines");
+        }
         if (x.size() % 3 != 0 || lines.size() > 1) pbt::nontrivial();
 
         std::string want = ref_base64(x);
